@@ -1,7 +1,11 @@
 import PegVerif.Exec.ErrDriver
+import PegVerif.Exec.Driver
+import PegVerif.Exec.Run
 def main (args : List String) : IO UInt32 := do
   match args with
   | ["err"] => PegVerif.errMain
+  | ["emit"] => PegVerif.emitMain
+  | ["run"] => PegVerif.runMain
   | _ =>
     IO.eprintln s!"pegmodel: unknown command {args}"
     return 2
